@@ -179,6 +179,8 @@ type GenOptions struct {
 	TLSSecrets []string
 	// OwnHostAlways (sparse worlds): every rule and tls entry of an ingress uses the ingress' own host
 	OwnHostAlways bool
+	// NoOwnHost (sparse worlds): hosts come from the pool only, so that ingresses with their own services meet on a host
+	NoOwnHost bool
 	OnlyNS        string
 	// Sparse: larger name pools and one host per ingress, so that the tracker's dirty
 	// closures stay small (a missing tracking link shows only when no other path exists)
@@ -887,6 +889,8 @@ func (g *gen) genIngress(ns, name string, created int, cur *networking.Ingress) 
 	ownHost := ""
 	if g.opt.Sparse {
 		nrules = 1
+	}
+	if g.opt.Sparse && !g.opt.NoOwnHost {
 		for i, nn := range ingNames {
 			if nn[0] == ns && nn[1] == name {
 				ownHost = fmt.Sprintf("h%d.local", i+1)
